@@ -51,6 +51,15 @@ pub enum Op {
     Staged { src: String, opts: Opts },
     /// the same, but every stage boundary goes through `prqlc::json`
     StagedJson { src: String, opts: Opts },
+    /// staged compilation the way a host with other work does it: between `pl_to_rq` and
+    /// `rq_to_sql` of `src` the same thread parses and lowers an unrelated program
+    /// (`between`, result discarded). Must give exactly what `Staged { src, opts }` gives.
+    StagedSplit {
+        src: String,
+        between: String,
+        via_json: bool,
+        opts: Opts,
+    },
     /// `prql_to_pl` → `pl_to_prql`
     Fmt { src: String },
     /// `prql_to_pl` → `pl_to_rq` → `json::from_rq`
@@ -84,6 +93,7 @@ impl Op {
             Op::Compile { .. } => "compile",
             Op::Staged { .. } => "staged",
             Op::StagedJson { .. } => "staged_json",
+            Op::StagedSplit { .. } => "staged_split",
             Op::Fmt { .. } => "fmt",
             Op::Rq { .. } => "rq",
             Op::Tokens { .. } => "tokens",
@@ -101,6 +111,7 @@ impl Op {
             Op::Compile { src, .. }
             | Op::Staged { src, .. }
             | Op::StagedJson { src, .. }
+            | Op::StagedSplit { src, .. }
             | Op::Fmt { src }
             | Op::Rq { src }
             | Op::Tokens { src } => Some(src),
@@ -112,6 +123,7 @@ impl Op {
             Op::Compile { src, .. }
             | Op::Staged { src, .. }
             | Op::StagedJson { src, .. }
+            | Op::StagedSplit { src, .. }
             | Op::Fmt { src }
             | Op::Rq { src }
             | Op::Tokens { src } => Some(src),
@@ -123,6 +135,7 @@ impl Op {
             Op::Compile { opts, .. }
             | Op::Staged { opts, .. }
             | Op::StagedJson { opts, .. }
+            | Op::StagedSplit { opts, .. }
             | Op::Project { opts, .. } => Some(opts),
             _ => None,
         }
@@ -289,6 +302,52 @@ fn rq_text_tree(rq: &prqlc::ir::rq::RelationalQuery, tree: &prqlc::SourceTree) -
     }
 }
 
+fn staged(src: &str, between: Option<&String>, via_json: bool, opts: &Opts) -> Obs {
+    let o = match opts.to_options() {
+        Ok(o) => o,
+        Err(e) => return Obs::err(format!("OPTS {}", err_json(&e))),
+    };
+    let pl = match prqlc::prql_to_pl(src) {
+        Ok(pl) => pl,
+        Err(e) => return Obs::err(format!("PLERR {}", err_json(&e))),
+    };
+    let mut text = String::new();
+    match prqlc::json::from_pl(&pl) {
+        Ok(j) => {
+            text.push_str("PL ");
+            text.push_str(&canonical_json(&j));
+        }
+        Err(e) => return Obs::err(format!("PLJSONERR {}", err_json(&e))),
+    }
+    let rq = match prqlc::pl_to_rq(pl) {
+        Ok(rq) => rq,
+        Err(e) => return Obs::err(format!("{text}\nRQERR {}", err_json(&e))),
+    };
+    text.push_str("\nRQ ");
+    text.push_str(&prqlc::json::from_rq(&rq).unwrap_or_default());
+    let rq = if let Some(b) = between {
+        // the host does something else on this thread before it comes back to this query
+        // (its result, error or panic is the host's business, not this query's)
+        let _ = std::panic::catch_unwind(std::panic::AssertUnwindSafe(|| {
+            let _ = prqlc::prql_to_pl(b).and_then(prqlc::pl_to_rq);
+        }));
+        if via_json {
+            match prqlc::json::from_rq(&rq).and_then(|j| prqlc::json::to_rq(&j)) {
+                Ok(rq) => rq,
+                Err(e) => return Obs::err(format!("{text}\nRQJSONERR {}", err_json(&e))),
+            }
+        } else {
+            rq
+        }
+    } else {
+        rq
+    };
+    match prqlc::rq_to_sql(rq, &o) {
+        Ok(sql) => Obs::ok(format!("{text}\nSQL {sql}")),
+        Err(e) => Obs::err(format!("{text}\nSQLERR {}", err_json(&e))),
+    }
+}
+
 fn do_op(op: &Op) -> Obs {
     match op {
         Op::Compile { src, opts } => {
@@ -301,34 +360,13 @@ fn do_op(op: &Op) -> Obs {
                 Err(e) => Obs::err(err_json(&e)),
             }
         }
-        Op::Staged { src, opts } => {
-            let o = match opts.to_options() {
-                Ok(o) => o,
-                Err(e) => return Obs::err(format!("OPTS {}", err_json(&e))),
-            };
-            let pl = match prqlc::prql_to_pl(src) {
-                Ok(pl) => pl,
-                Err(e) => return Obs::err(format!("PLERR {}", err_json(&e))),
-            };
-            let mut text = String::new();
-            match prqlc::json::from_pl(&pl) {
-                Ok(j) => {
-                    text.push_str("PL ");
-                    text.push_str(&canonical_json(&j));
-                }
-                Err(e) => return Obs::err(format!("PLJSONERR {}", err_json(&e))),
-            }
-            let rq = match prqlc::pl_to_rq(pl) {
-                Ok(rq) => rq,
-                Err(e) => return Obs::err(format!("{text}\nRQERR {}", err_json(&e))),
-            };
-            text.push_str("\nRQ ");
-            text.push_str(&prqlc::json::from_rq(&rq).unwrap_or_default());
-            match prqlc::rq_to_sql(rq, &o) {
-                Ok(sql) => Obs::ok(format!("{text}\nSQL {sql}")),
-                Err(e) => Obs::err(format!("{text}\nSQLERR {}", err_json(&e))),
-            }
-        }
+        Op::Staged { src, opts } => staged(src, None, false, opts),
+        Op::StagedSplit {
+            src,
+            between,
+            via_json,
+            opts,
+        } => staged(src, Some(between), *via_json, opts),
         Op::StagedJson { src, opts } => {
             let o = match opts.to_options() {
                 Ok(o) => o,
